@@ -9,7 +9,14 @@ TAGS = ('C02',)
 
 
 def oracle(chain_views, parent_utxo, bv, now, env):
-    return spec.c02_conjuncts(parent_utxo, bv, sub=env.subsidy)
+    # "that height's subsidy" is the subsidy of the block's POSITION in its chain (number of ancestors), whatever height
+    # the block writes into its own fields
+    position = len(chain_views)
+    bad = spec.c02_conjuncts(parent_utxo, bv, sub=lambda h: env.subsidy(position))
+    if bv.height != position:
+        bad.append('declared height %d is not the position %d in the chain (issuance follows the schedule by position)'
+                   % (bv.height, position))
+    return bad
 
 
 def run(tier, seed):
@@ -30,6 +37,13 @@ def run(tier, seed):
                        'the functional model cannot mutate its argument']
     ck.build(extract=True)
     consensus_check.run_consensus(ck, TAGS, oracle, tier)
+    try:
+        consensus_check.node_relay_probe(ck, tier, TAGS)
+    except Exception:
+        import traceback
+        tb = traceback.format_exc()
+        if 'could not mine a block' not in tb:
+            ck.disagree('node-level relay probe crashed: %s' % tb[-500:], {})
     return ck.finish()
 
 
